@@ -407,21 +407,27 @@ func run(p *kernel.Plan) (res *kernel.Result) {
 		return res.Fail("C13/handshake-invalid", "%s", m)
 	}
 	wantDeflate := o.ClientComp && o.ServerComp
-	if pr.Deflate != wantDeflate {
+	if pr.Deflate && !wantDeflate {
 		return res.Fail("C13/extension-negotiation", "permessage-deflate on the wire: %v; client offered %v, server enabled %v", pr.Deflate, o.ClientComp, o.ServerComp)
 	}
-	wantSub := ""
-	if len(subs[0]) > 0 && len(subs[1]) > 0 {
-		for _, sp := range subs[1] {
-			for _, cp := range subs[0] {
-				if sp == cp && wantSub == "" {
-					wantSub = sp
-				}
-			}
-		}
+	if pr.Deflate != wantDeflate {
+		res.Stat("deflate_declined_although_both_enabled", 1)
 	}
-	if pr.Client.Subprotocol() != wantSub || pr.Server.Subprotocol() != wantSub {
-		return res.Fail("C13/subprotocol", "negotiated %q/%q, want %q", pr.Client.Subprotocol(), pr.Server.Subprotocol(), wantSub)
+	// the negotiated subprotocol: both ends agree, and it is one both sides listed (or none)
+	if pr.Client.Subprotocol() != pr.Server.Subprotocol() {
+		return res.Fail("C13/subprotocol", "client sees subprotocol %q, server %q", pr.Client.Subprotocol(), pr.Server.Subprotocol())
+	}
+	if sp := pr.Client.Subprotocol(); sp != "" {
+		inC, inS := false, false
+		for _, x := range subs[0] {
+			inC = inC || x == sp
+		}
+		for _, x := range subs[1] {
+			inS = inS || x == sp
+		}
+		if !inC || !inS {
+			return res.Fail("C13/subprotocol", "negotiated %q, client offered %v, server supports %v", sp, subs[0], subs[1])
+		}
 	}
 	if pr.Deflate {
 		res.Stat("sessions_with_deflate", 1)
